@@ -186,6 +186,135 @@ class NovelOrfSelection(Contract):
 
 
 # ----------------------------------------------------------------------------
+# the ORF FASTA: coordinates translate to the listed sequence
+# ----------------------------------------------------------------------------
+from pyvc.pstr import PStr
+from .c09 import install_find
+
+AA = z3.Function('codon_to_residue', I_, I_, I_, I_)
+
+
+class OrfIdTok:
+    def __init__(self, k):
+        self.k = k
+
+    def sym_str(self, I):
+        return self
+
+
+@register
+class OrfSequences(Contract):
+    """for every ORF start s of the peptide graph: the record lists residues i = 0..n-1, residue i being the translation of the codon at
+    transcript positions s+3i..s+3i+2; no residue is a stop; the ORF ends at the first stop codon in that frame or, if there is none, with
+    the last complete codon of the transcript; the header is tx|gene|orf_id|s-(s+3n)"""
+    path, qualname, props = CNO, 'get_orf_sequences', ('C08',)
+    models = (install_find,)
+    assumptions = ('assumed: record[i:].translate() yields one residue per complete codon of the suffix, residue q = codon table applied to '
+                   'bases i+3q..i+3q+2 (Bio.Seq translation as an uninterpreted codon table); slicing a record slices its sequence',
+                   'assumed: Seq.find(ch) returns the first index holding ch, or -1; ORF starts are non-negative (below 2^53: int(s / 3))')
+
+    def setup(self, I):
+        e = I.e
+        st = types.SimpleNamespace(out=[])
+        st.L = e.int('tx_len')
+        e.assume(st.L >= 0)
+        st.tx = PStr.sym(e, 'tx', st.L)
+        st.N = e.int('n_orfs')
+        e.assume(st.N >= 0)
+        st.S = e.array('orf_start')
+        zz = lambda i: i if is_z3(i) else z3.IntVal(i)
+        st.frames = {}
+
+        def frame(r):
+            # translation of tx[r:]: (L - r) // 3 residues (r in 0..2, so L - r may be negative only for L < r: then empty)
+            if r not in st.frames:
+                n = z3.If(st.L - r >= 0, (st.L - r) / 3, 0)
+                ln = e.int(f'frame{r}_len')
+                e.assume(ln == n)
+                tr = PStr(ln, lambda q, r=r: AA(st.tx.get(r + 3 * zz(q)), st.tx.get(r + 3 * zz(q) + 1), st.tx.get(r + 3 * zz(q) + 2)), tag=f'frame{r}')
+                st.frames[r] = SymObj('AARec', seq=tr, frame=r, id=None, name=None, description=None)
+            return st.frames[r]
+        st.frame = frame
+        st.has_orf = e.bool('tx_has_known_orf')
+        st.exclude = e.bool('exclude_canonical_orf')
+        st.known_start = e.int('known_orf_start')
+        st.known_end = e.int('known_orf_end')
+        e.assume(st.known_end >= st.known_start)
+        orf = SymObj('FeatureLocation', start=st.known_start, end=st.known_end) if e.branch(st.has_orf, 'known orf') else None
+        st.txrec = SymObj('TxRec', seq=st.tx, orf=orf)
+        pairs = FnView(st.N, lambda k: ((st.S[zz(k)], SymObj('OrfEnd')), OrfIdTok(zz(k))), tag='orf_id_map.items()')
+        st.pgraph = SymObj('PVG', orf_id_map=types.SimpleNamespace(sym_method=lambda I2, name, a, k: pairs if name == 'items' else (_ for _ in ()).throw(Unsupported(name))))
+        j = z3.Int('j_s')
+        e.assume(z3.ForAll([j], z3.Implies(z3.And(0 <= j, j < st.N), z3.And(0 <= st.S[j], st.S[j] <= st.L))))
+        st.args = []
+        st.kwargs = dict(pgraph=st.pgraph, tx_id='ENST_T', gene_id='ENSG_G', tx_seq=st.txrec, exclude_canonical_orf=st.exclude)
+        self._cur = st
+        return st
+
+    @property
+    def models(self):
+        c = self
+
+        def inst(reg):
+            install_find(reg)
+
+            def tx_slice(I, o, lo, hi):
+                if hi is not None or not isinstance(lo, int) or not 0 <= lo <= 2:
+                    raise Unsupported('transcript slice other than [0:], [1:], [2:]')
+                return SymObj('TxSuffix', r=lo)
+            reg.protocol_('TxRec', '__getslice__', tx_slice)
+            reg.method_('TxSuffix', 'translate', lambda I, o, a, k: c._cur.frame(o.fields['r']))
+
+            def aa_slice(I, o, lo, hi):
+                return SymObj('AARec', seq=I.getitem(o.fields['seq'], SymObj('slice', start=lo, stop=hi, step=None)), frame=o.fields['frame'], id=None, name=None,
+                              description=None, _lo=lo, _hi=hi)
+            reg.protocol_('AARec', '__getslice__', aa_slice)
+        return (inst,)
+
+    def havoc(self, I, env, k):
+        env['seqs'] = GhostList(self._cur.out, 'seqs')
+
+    def on_head(self, I, env, k):
+        self._cur.mark = len(self._cur.out)
+
+    def step(self, I, env, k):
+        st = self._cur
+        new = st.out[st.mark:]
+        s = st.S[k]
+        skipped = z3.And(st.exclude, st.has_orf, st.known_end > st.known_start, st.known_start == s)
+        if not new:
+            return [('orf-left-out-only-as-the-excluded-known-orf', skipped)]
+        items = [('one-record-per-orf', len(new) == 1 and new[0][1] == 'append'), ('known-orf-excluded-when-asked', z3.Not(skipped))]
+        rec = new[0][2][0]
+        if not (isinstance(rec, SymObj) and isinstance(rec.fields.get('seq'), PStr)):
+            return items + [('record-carries-a-sequence', False)]
+        y = rec.fields['seq']
+        n = y.length()
+        n = n if is_z3(n) else z3.IntVal(n)
+        i = z3.Int('i_res')
+        STOP = ord('*')
+        codon = lambda q: AA(st.tx.get(s + 3 * q), st.tx.get(s + 3 * q + 1), st.tx.get(s + 3 * q + 2))
+        items.append(('residue-i=translation-of-the-codon-at-start+3i', z3.And(n >= 0, s + 3 * n <= st.L, z3.ForAll([i], z3.Implies(z3.And(0 <= i, i < n), y.get(i) == codon(i))))))
+        items.append(('no-stop-inside-the-orf', z3.ForAll([i], z3.Implies(z3.And(0 <= i, i < n), y.get(i) != STOP))))
+        items.append(('ends-at-the-first-stop-or-with-the-last-complete-codon', z3.Or(z3.And(s + 3 * n + 3 <= st.L, codon(n) == STOP), s + 3 * n + 3 > st.L)))
+        d = rec.fields.get('description')
+        okh = isinstance(d, OpaqueStr) and len(d.parts) == 9 and d.parts[0] == 'ENST_T' and d.parts[2] == 'ENSG_G' and d.parts[1] == d.parts[3] == d.parts[5] == '|' \
+            and d.parts[7] == '-' and isinstance(d.parts[4], OrfIdTok)
+        import os
+        if not okh and os.environ.get('PYVC_DEBUG'): print('HDR', d)
+        items.append(('header=tx|gene|orf_id|start-end', z3.And(d.parts[4].k == k, d.parts[6] == s, d.parts[8] == s + 3 * n) if okh else False))
+        items.append(('id-and-name-carry-the-header', rec.fields.get('id') is d and rec.fields.get('name') is d))
+        return items
+
+    @property
+    def loops(self):
+        return {0: LoopSpec(inv=lambda I, env, k: [], havoc=self.havoc, on_head=self.on_head, step=self.step)}
+
+    def post_return(self, I, st, ret):
+        I.e.prove('C08/orf/returns-the-collected-records', isinstance(ret, (GhostList, list)))
+
+
+# ----------------------------------------------------------------------------
 # Native side: bounded oracle for the peptide content (definitional ORF digest) and the ORF FASTA.
 # ----------------------------------------------------------------------------
 from pyvc.native import NativeCheck
